@@ -587,7 +587,7 @@ def rpy2q(angles: np.ndarray, in_deg: bool = False) -> np.ndarray:
         cy*cp*sr - sy*sp*cr,
         sy*cp*sr + cy*sp*cr,
         sy*cp*cr - cy*sp*sr])
-    q /= np.linalg.norm(q)
+    q /= np.linalg.norm(q, axis=0)
     return q
 
 def cardan2q(angles: np.ndarray, in_deg: bool = False) -> np.ndarray:
@@ -1115,7 +1115,7 @@ def hughes(C: np.ndarray) -> np.ndarray:
     Q[:, 2] = np.array(C[:, 0, 2]-C[:, 2, 0])
     Q[:, 3] = np.array(C[:, 1, 0]-C[:, 0, 1])
     Q[:, 1:] /= 4.0*Q_w[:, None]
-    return Q
+    return Q / np.linalg.norm(Q, axis=1)[:, None]
 
 def sarabandi(dcm: np.ndarray, eta: float = 0.0) -> np.ndarray:
     """
